@@ -57,16 +57,28 @@ def confirmLast (l : Ledger) : Except String Ledger :=
     | .error e => .error ("add-utxo-failed:" ++ e)
     | .ok u' => .ok ⟨l.blocks, u', l.reg.update last.addedL last.removedL⟩
 
-/-- the block `AddBlock(timestamp, transactions, newAddresses)` builds on the state `c` in which the
-    previous tip has been confirmed (after the fix: commit): `Filter` and `RemovedAddresses` are read there -/
-def mkBlock (env : Env) (c : Ledger) (ts : Int) (txs : List Tx) (newAddresses : List String) : Block :=
-  { prevHash := prevHashOf env c, added := c.reg.filter newAddresses, removed := c.reg.pending, ts := ts, txs := txs }
+/-- union of the two `Filter` results as `AddBlock` builds it: the second list's addresses not yet listed
+    are appended; nil stays nil when nothing is listed -/
+def unionAdded (a b : Option (List String)) : Option (List String) :=
+  match b with
+  | none => a
+  | some bl =>
+    match bl.foldl (fun (acc : List String) x => if acc.contains x then acc else acc ++ [x]) (a.getD []) with
+    | [] => a
+    | l => some l
 
-/-- `AddBlock`: confirm the previous tip, build the block from the confirmed state, append -/
+/-- the block `AddBlock(timestamp, transactions, newAddresses)` builds (after the fix: commits): `l` is the
+    ledger before, `c` the ledger with the previous tip confirmed; an address is listed as newly registered
+    when it is unregistered in either state; `RemovedAddresses` is read after confirming -/
+def mkBlock (env : Env) (l c : Ledger) (ts : Int) (txs : List Tx) (newAddresses : List String) : Block :=
+  { prevHash := prevHashOf env c, added := unionAdded (l.reg.filter newAddresses) (c.reg.filter newAddresses),
+    removed := c.reg.pending, ts := ts, txs := txs }
+
+/-- `AddBlock`: confirm the previous tip, build the block, append -/
 def addBlock (env : Env) (l : Ledger) (ts : Int) (txs : List Tx) (newAddresses : List String) : Except String Ledger :=
   match l.confirmLast with
   | .error e => .error e
-  | .ok c => .ok { c with blocks := c.blocks ++ [mkBlock env c ts txs newAddresses] }
+  | .ok c => .ok { c with blocks := c.blocks ++ [mkBlock env l c ts txs newAddresses] }
 
 /-- `Blocks(startingBlockHeight)` -/
 def page (pageSize : Nat) (blocks : List Block) (h : Nat) : List Block :=
